@@ -7,6 +7,7 @@ import EaselModel.Buffer.History
 import EaselModel.Buffer.AllLines
 import EaselModel.Buffer.Quiet
 import EaselModel.Buffer.TotalHist
+import EaselModel.Buffer.MemExact
 import EaselModel.Buffer.Stable
 /-! # C05 — the input buffer behaves as a byte array with a cursor in every mode and history
 
@@ -352,6 +353,31 @@ example : (obsRun { b := openBuf .stream 4 srcW } [.setAnchor 3, .getLine, .setA
     (fun o => (o.st, o.bytes, o.off)) = [(.ok, [], 0), (.ok, [97, 98], 3), (.ok, [], 3), (.ok, [], 1), (.ok, [98], 2), (.ok, [], 2)] := by decide
 example : (aBrk { src := srcW, cur := 1, anchor := some 2, nanchor := 1 } 1).anchor = none ∧
     (aBrk { src := srcW, cur := 3, anchor := some 2, nanchor := 1 } 3).anchor = some 2 := by decide
+
+/-! ### the whole-input modes: an equation for every history (round 4) -/
+
+/-- **Whole-input modes (string, slurped file, mmap, short pipe), EVERY history, no API contract.** The observations are
+    those of `memRun`: the specification "bytes + cursor" made total — anchors are the documented no-ops, `SetOffset` goes
+    anywhere up to the end of the input and answers `eslEINVAL` beyond it (leaving everything as it was). Here the relation
+    `Total` of `history_total` collapses to a function of the input bytes and the history. -/
+theorem history_memory_exact (mode : Mode) (ps : Nat) (src : Bytes) (hps : 0 < ps) (hm : wholeInput mode ps src) (ops : List Op)
+    (hs : CallerOkRun { b := openBuf mode ps src } ops) :
+    obsRun { b := openBuf mode ps src } ops = memRun (AState.init src) ops :=
+  EaselModel.Buffer.history_memory_exact mode ps src hps hm ops hs
+
+/-- … hence any two whole-input openings of the same bytes agree on every history, whatever the arguments. -/
+theorem history_memory_mode_independent (src : Bytes) (m₁ m₂ : Mode) (ps₁ ps₂ : Nat) (h₁ : 0 < ps₁) (h₂ : 0 < ps₂)
+    (hm₁ : wholeInput m₁ ps₁ src) (hm₂ : wholeInput m₂ ps₂ src) (ops : List Op)
+    (hs₁ : CallerOkRun { b := openBuf m₁ ps₁ src } ops) (hs₂ : CallerOkRun { b := openBuf m₂ ps₂ src } ops) :
+    obsRun { b := openBuf m₁ ps₁ src } ops = obsRun { b := openBuf m₂ ps₂ src } ops := by
+  rw [EaselModel.Buffer.history_memory_exact m₁ ps₁ src h₁ hm₁ ops hs₁, EaselModel.Buffer.history_memory_exact m₂ ps₂ src h₂ hm₂ ops hs₂]
+
+-- non-vacuity: a history far outside the contract on a string and on a short pipe
+example : wholeInput .cmdpipe 64 srcW ∧ wholeInput .string 1 srcW := ⟨Or.inr (Or.inr (Or.inr ⟨rfl, by decide⟩)), Or.inl rfl⟩
+example : CallerOkRun { b := openBuf .cmdpipe 64 srcW } [.setOffset 40, .setAnchor 7, .setOffset 7, .getLine, .raiseAnchor 3, .setOffset 12, .getLine, .get, .set 0] :=
+  (callerOkRunB_iff _ _).mp (by decide)
+example : (memRun (AState.init srcW) [.setOffset 40, .setAnchor 7, .setOffset 7, .getLine, .raiseAnchor 3, .setOffset 12, .getLine]).map
+    (fun o => (o.st, o.bytes, o.off)) = [(.einval, [], 0), (.ok, [], 0), (.ok, [], 7), (.ok, [102], 9), (.ok, [], 9), (.ok, [], 12), (.eof, [], 12)] := by decide
 
 /-! ## Stable anchors, exactly (round 3) -/
 
